@@ -20,6 +20,7 @@ import (
 //
 // Since 0.4.3
 func (st *SlimTrie) Marshal() ([]byte, error) {
+	verifPoint("Marshal", 0, 0)
 	var buf []byte
 	writer := bytes.NewBuffer(buf)
 
@@ -45,6 +46,7 @@ func (st *SlimTrie) Unmarshal(buf []byte) error {
 		return errors.WithMessage(err, "failed to unmarshal header")
 	}
 
+	verifPoint("Unmarshal.header", 0, 0)
 	ver := h.GetVersion()
 	compatible := st.compatibleVersions()
 
@@ -65,6 +67,7 @@ func (st *SlimTrie) Unmarshal(buf []byte) error {
 			return errors.WithMessage(err, "failed to unmarshal inner")
 		}
 
+		verifPoint("Unmarshal.body", 0, 0)
 		if vers.Check(ver, "<0.5.12") {
 			before000512InnerPrefixTobitstr(st)
 			before000512FixLeafSize(st)
@@ -96,6 +99,7 @@ func (st *SlimTrie) Unmarshal(buf []byte) error {
 		return errors.WithMessage(err, "failed to unmarshal leaves")
 	}
 
+	verifPoint("Unmarshal.body", 3, 0)
 	// backward compatible:
 
 	before000510(st, ver, children, steps, leaves)
